@@ -31,6 +31,16 @@ EM10 = math.exp(-10.0)
 _jit_warm = [False]
 
 
+
+def _invalid_params(ctx, e):
+    """a parameter set the model itself rejects as invalid (InvalidModelException and subclasses) is outside every
+    property's quantifier: recorded in the malformed stream, never judged"""
+    from taurex.exceptions import InvalidModelException
+    if isinstance(e, InvalidModelException):
+        ctx.malformed_outcome('invalid-model-after-setters:' + type(e).__name__)
+        return True
+    return False
+
 def gen_case(rng, k, thorough=False):
     nl = int(rng.integers(1, 41 if thorough else 21)) if rng.random() < 0.9 else int(rng.integers(1, 4))
     nwn = int(rng.integers(1, 13 if thorough else 7))
@@ -374,6 +384,8 @@ def reuse_case(ctx, c, nsteps=3):
                 o = observe(m)
                 fresh = observe(E.build_model(kind, dict(case['spec'])))
             except Exception as e:
+                if _invalid_params(ctx, e):
+                    return
                 ctx.violation('stale-state:raises:' + p, 'model raised %r after a parameter change' % (e,), case)
                 return
             ctx.bucket('reuse:' + p)
